@@ -239,7 +239,7 @@ def is_volatile_key(key):
 def judge(v, counters):
     out = []
     def bump(k, n=1): counters[k] = counters.get(k, 0) + n
-    if v.x.deadlock: out.append(('deadlock|%s' % '+'.join(p['name'] for p in v.progs), 'no enabled thread while some thread is unfinished'))
+    if v.x.deadlock: out.append(('deadlock|reader+writers', 'no enabled thread while some thread is unfinished'))
     for t in range(v.n):
         name = v.progs[t]['name']
         r = v.res[t]
@@ -329,14 +329,15 @@ def run(ctx):
     agg = L.merge(ctx, results)
     L.xcheck(ctx, agg, results)
     c = ctx.counters
-    ctx.guard('schedules in which UnrepeatableReadError occurred', c.get('UnrepeatableReadError', 0), 200)
-    ctx.guard('attribute re-observations compared', c.get('attributes_reobserved', 0), 1000)
-    ctx.guard('collection re-observations compared', c.get('collections_reobserved', 0), 1000)
-    ctx.guard('volatile control group re-observed', c.get('volatile_reobserved', 0), 200)
-    ctx.guard('volatile control group changed silently (no error)', c.get('volatile_changed_silently', 0), 10)
-    ctx.guard('executions with a committed concurrent change', c.get('executions_with_a_committed_change', 0), 1000)
-    ctx.guard('program pairs with more than one distinct outcome', agg['per_kind']['pair']['tuples_with_more_than_one_outcome'], 50)
-    ctx.guard('all-points cross-check tuples', c.get('xcheck_tuples_all_points_outcomes_contained', 0), 2)
+    L.guards(ctx, [
+        ('schedules in which UnrepeatableReadError occurred', c.get('UnrepeatableReadError', 0), 200),
+        ('attribute re-observations compared', c.get('attributes_reobserved', 0), 1000),
+        ('collection re-observations compared', c.get('collections_reobserved', 0), 1000),
+        ('volatile control group re-observed', c.get('volatile_reobserved', 0), 200),
+        ('volatile control group changed silently (no error)', c.get('volatile_changed_silently', 0), 10),
+        ('executions with a committed concurrent change', c.get('executions_with_a_committed_change', 0), 1000),
+        ('program pairs with more than one distinct outcome', agg['per_kind']['pair']['tuples_with_more_than_one_outcome'], 50),
+        ('all-points cross-check tuples', c.get('xcheck_tuples_all_points_outcomes_contained', 0), 2),])
     out = L.coverage(ctx, agg)
     ctx.cov.update(readers=len(READERS), writers=len(WRITERS),
                    bounds='reader x writer: preemption bound 2' if ctx.quick else
